@@ -29,6 +29,31 @@ def child_mod(file, modname):
                 why="harness module (cfg(kani) only)")
 
 
+def gen_verif_main(ws):
+    """clock-bound-d/src/main.rs: cut the ppm->ppb statement and the default constant."""
+    import os, re
+    import extract as ex
+    from vlib import VERIF, Undecided
+    src = ws.read("clock-bound-d/src/main.rs")
+    try:
+        stmt = ex.statement(src, "    let max_drift_ppb = ", "\n    };\n", "main.rs ppm->ppb statement")
+    except ex.ExtractError as e:
+        # the statement may have been rewritten into a single expression ending in `;`
+        m = re.search(r"^    let max_drift_ppb(?:: u32)? = [^;]*;\n", src, re.M)
+        if not m:
+            raise Undecided("extract", "extraction anchor lost: " + str(e))
+        stmt = m.group(0)
+    m = re.search(r"^pub const DEFAULT_MAX_DRIFT_RATE_PPB: u32 = .*;$", src, re.M)
+    if not m:
+        raise Undecided("extract", "extraction anchor lost: const DEFAULT_MAX_DRIFT_RATE_PPB")
+    tmpl = open(os.path.join(VERIF, "harness/clock-bound-d/verif_main.rs.tmpl")).read()
+    ws.write("clock-bound-d/src/verif_main.rs", tmpl.replace("@@CONST@@", m.group(0)).replace("@@STATEMENT@@", stmt.rstrip("\n")))
+    ws.weave_log.append({"file": "clock-bound-d/src/verif_main.rs", "action": "generate",
+                         "text": "statement `let max_drift_ppb = ...;` and const DEFAULT_MAX_DRIFT_RATE_PPB cut verbatim from clock-bound-d/src/main.rs "
+                                 "and wrapped as fn verif_ppb(args: Cli) -> Result<u32, String>",
+                         "why": "the conversion is a statement inside main(); dropped: nothing (warn! is a no-op macro)"})
+
+
 UNITS = {
     # ---- clock-bound-shm ------------------------------------------------------------------
     "shm_write": {
@@ -48,6 +73,22 @@ UNITS = {
         "crate": "clock-bound-shm", "features": "writer",
         "files": [("clock-bound-shm/src/verif_search_compute.rs", "harness/clock-bound-shm/verif_search_compute.rs")],
         "edits": [child_mod_cfg("clock-bound-shm/src/lib.rs", "verif_search_compute", "verif_search")],
+    },
+    # ---- clock-bound-d ----------------------------------------------------------------------
+    "d_main": {
+        "crate": "clock-bound-d", "features": None,
+        "gen": gen_verif_main,
+        "edits": [child_mod("clock-bound-d/src/lib.rs", "verif_main")],
+    },
+    "d_updater": {
+        "crate": "clock-bound-d", "features": None,
+        "files": [("clock-bound-d/src/verif_updater.rs", "harness/clock-bound-d/verif_updater.rs")],
+        "edits": [
+            Edit("clock-bound-d/src/shm_writer.rs", "use tracing::{debug, error, info};\n", "replace",
+                 "#[cfg(not(kani))]\nuse tracing::{debug, error, info};\n" + NOLOG_MACROS,
+                 why="tracing macros make kani-compiler 0.68 panic; under cfg(kani) they are no-ops (arguments not evaluated)"),
+            child_mod("clock-bound-d/src/shm_writer.rs", "verif_updater"),
+        ],
     },
 }
 
@@ -97,7 +138,67 @@ COMPUTE_TRUSTED = ["tools/extract.py + tools/verus_gen.py (extraction, listed re
 # ---------------------------------------------------------------------------------------------
 # properties
 # ---------------------------------------------------------------------------------------------
+UPD = "harness/clock-bound-d/verif_updater.rs"
+
+
+def dh(name, replayable=False, timeout=600, **kw):
+    d = {"name": name, "file": UPD, "replayable": replayable, "tier": "quick", "timeout": timeout}
+    d.update(kw)
+    return d
+
+
+DGRP = {"kind": "kani", "crate": "clock-bound-d", "units": ["d_updater"], "modpath": "shm_writer::verif_updater"}
+UPD_FUNCS = ["clock_bound_d::shm_writer::ShmUpdater::{new, write_clock_error_bound, process_clock_update, process_missing_clock_update}",
+             "clock_bound_d::shm_writer::clock_state_fsm::{ShmClockState::default, FSMState::apply_chrony, FSMState::value, FSMTransition::transition x3}"]
+UPD_ASSUME = [A["tools"], A["weaver"],
+              "extract_bound_from_tracking is replaced by its contract 'returns some (bound, status)' in the step harnesses (kani::stub); its own obligations are C07/C10",
+              "|bound|, |phc_error_bound| < 2^62 and as_of.tv_sec < i64::MAX - 1000 (no i64 overflow in bound + phc and tv_sec + 1000)",
+              "the ShmWrite sink is a harness type recording the last record and a counter (the real ShmWriter::write is C11)"]
+
 PROPS = {
+    "C08": {
+        "functions": UPD_FUNCS,
+        "assumptions": UPD_ASSUME,
+        "trusted": ["harness/clock-bound-d/verif_updater.rs (expected_record oracle)"],
+        "groups": [dict(DGRP, harnesses=[dh("c08_new_initial_state"), dh("c08_fsm_table"), dh("c08_update_step"), dh("c08_missing_step")])],
+    },
+    "C09": {
+        "functions": UPD_FUNCS,
+        "assumptions": UPD_ASSUME + ["history quantifier closed by induction: base+step harness from a fresh updater, plus the absorption harness "
+                                     "(two consecutive non-synchronised outcomes == the second alone, observably)"],
+        "trusted": ["harness/clock-bound-d/verif_updater.rs (untrusted_record oracle)"],
+        "groups": [dict(DGRP, harnesses=[dh("c08_new_initial_state"), dh("c09_fresh_then_nonsync"), dh("c09_nonsync_absorbing")])],
+    },
+    "C19": {
+        "functions": ["clock_bound_d (bin) main(): statement `let max_drift_ppb = match args.max_drift_rate {..};` (extracted verbatim, wrapped)",
+                      "clock_bound_d::shm_writer::ShmUpdater::{new, write_clock_error_bound} (drift copied verbatim: C08 obligations)"],
+        "assumptions": [A["tools"], A["weaver"],
+                        "arithmetic overflow is reported irrespective of build profile; in the release build the same overflow wraps silently, which is the violation the property names",
+                        "unverified glue: main -> thread_manager::run -> shm_writer::run -> ShmUpdater::new pass the u32 by value through three calls"],
+        "trusted": ["harness/clock-bound-d/verif_main.rs.tmpl (wrapper, Cli stand-in with the single field read by the statement)"],
+        "groups": [
+            {"kind": "kani", "crate": "clock-bound-d", "units": ["d_main"], "modpath": "verif_main",
+             "harnesses": [{"name": "c19_main_ppb", "file": "harness/clock-bound-d/verif_main.rs.tmpl", "replayable": True, "timeout": 600}]},
+            dict(DGRP, harnesses=[dh("c08_new_initial_state"), dh("c08_update_step"), dh("c08_missing_step")]),
+        ],
+    },
+    "C10": {
+        "functions": ["clock_bound_d::<ChronyClockStatus as From<u16>>::from",
+                      "clock_bound_d::shm_writer::extract_bound_from_tracking (status result)"],
+        "assumptions": [A["tools"], A["weaver"],
+                        "std contract: SystemTime::elapsed returns Ok(age) for a reference time not in the future and Err otherwise (stubbed)",
+                        "f64::powi(2.0, n) == 2^n exactly (stubbed; Kani over-approximates powi)",
+                        "update interval restricted to non-negative wire floats with exponent in [-10, 30] (interval < 2^29 s); age < 2^40 s"],
+        "trusted": ["harness/clock-bound-d/verif_updater.rs (oracle: exact integer comparison of the age with 8 * interval)"],
+        "groups": [{"kind": "kani", "crate": "clock-bound-d", "units": ["d_updater"], "modpath": "shm_writer::verif_updater",
+                    "harnesses": [dh("c10_from_u16", replayable=True)] + [
+                        dh("c10_extract_status_e%s%d" % ("m" if e < 0 else "p", abs(e)),
+                           obligations=["C10.extract.sync_only_if_leap", "C10.extract.sync_only_if_not_future",
+                                        "C10.extract.sync_only_if_fresh", "C10.extract.stale_is_free",
+                                        "C10.extract.leap3_is_free", "C10.extract.bad_leap_unknown",
+                                        "C10.extract.future_unknown", "C10.extract.fresh_is_sync"])
+                        for e in range(-10, 31)]}],
+    },
     "C05": {
         "functions": COMPUTE_FUNCS,
         "assumptions": [A["tools"], A["float"], A["extract"], A["weaver"]],
@@ -121,7 +222,7 @@ PROPS = {
         "assumptions": [A["tools"], A["seq_atomics"], A["weaver"]],
         "trusted": ["tools/weave (vlib.Workspace.apply)", "harness/clock-bound-shm/verif_write.rs (oracle next_gen, Seg layout)"],
         "groups": [
-            {"kind": "kani", "crate": "clock-bound-shm", "units": ["shm_write"],
+            {"kind": "kani", "crate": "clock-bound-shm", "units": ["shm_write"], "modpath": "writer::verif_write",
              "harnesses": [
                  {"name": "c11_write_contract", "file": "harness/clock-bound-shm/verif_write.rs",
                   "also": ["C11.write.gen_odd_before_copy", "C11.write.gen_odd_after_copy"],
